@@ -69,9 +69,13 @@ def gen_program(rng: random.Random, mapping: str, big: bool = False) -> dict:
             {"k": "if", "c": E("DEFB"), "t": [{"k": "block", "b": [{"k": "data", "d": "dl", "es": [E("DEFB", "*", 2), E("DEFC")]}]},
                                               {"k": "for", "v": "itD", "a": E(0), "b": E("DEFA", "&", 3), "body": [{"k": "data", "d": "db", "es": [E("itD", "+", "DEFB")]}]}]}]
     # a comment whose last character is a backslash (a DOS path, ASCII art) is a comment up to its line end, in a file as in memory
-    tail += [{"k": "raw", "text": "; converted from ..\\gfx\\sheets\\\n.db 0x77\n.db 0x78 ; idle \\ walk \\\n.db 0x79"}]
+    # (raw text is outside the reference model: only some programs carry it, so that the others' labels are still judged by the model)
+    with_raw = rng.random() < 0.4
+    if with_raw:
+        tail += [{"k": "raw", "text": "; converted from ..\\gfx\\sheets\\\n.db 0x77\n.db 0x78 ; idle \\ walk \\\n.db 0x79"}]
     # a form feed / U+2028 inside a string or a comment is a character of that string / comment, in a file as in memory
-    tail += [{"k": "raw", "text": ".ascii 'AB\x0cCD'\n.db 0x7A ; page\x0cbreak \u2028 more\n.db 0x7B"}]
+    if with_raw:
+        tail += [{"k": "raw", "text": ".ascii 'AB\x0cCD'\n.db 0x7A ; page\x0cbreak \u2028 more\n.db 0x7B"}]
     # names with a leading underscore, digits and mixed case are names like any other
     tail += [{"k": "if", "c": E("_DEFU"), "t": [{"k": "data", "d": "db", "es": [E("_DEFU")]}, {"k": "if", "c": E("Def_9z"), "t": [{"k": "data", "d": "dw", "es": [E("Def_9z", "+", "_DEFU")]}]}]}]
     # a command-line definition is an ordinary top-level constant: inner scopes may define the same name for themselves
